@@ -215,4 +215,88 @@ def openTiled (crc32 : Bytes → Nat) (inflate : Bytes → Option Bytes) (start 
         if tilesFrom file sd r.offsetCd start (sortByOffset infos) = some sd then readMembers crc32 inflate file sd r.offsetCd infos
         else none
 
+/-! ## round 8: the directory must agree with the local headers  (`_open_archive` after `patches/cqm-archive-local-headers.diff`)
+
+The round-7 walk trusts the `compress_size` of the directory — but in a truncated file the directory is the one the payload
+spells: it can list a "cover" member at the header end whose size spans all real members up to the embedded ones, and the
+walk is satisfied (`C10.tiling_walk_trusts_directory_size`; found on the real loader in round 8).  The repaired walk reads
+the whole LOCAL header of each member — signature, name, extra field, and the size recorded in front of the data (the
+4-byte field, or with `0xFFFFFFFF` there the last 8 bytes of the zip64 extra that `force_zip64=True` writes) — and
+requires name and size to be the directory's. -/
+
+/-- `int.from_bytes(extra[-8:] if local[18:22] == b'\xff\xff\xff\xff' else local[18:22], 'little')` -/
+def localSize (h extra : Bytes) : Nat :=
+  if (h.drop 18).take 4 = [255, 255, 255, 255] then leNat (extra.drop (extra.length - 8)) else leNat ((h.drop 18).take 4)
+
+/-- the walk of the round-8 `_open_archive`: `pos` after the last member, or `none` (→ `ValueError`) -/
+def tilesFromStrict (file : Bytes) (startDir offsetCd : Nat) : Nat → List CDInfo → Option Nat
+  | pos, [] => some pos
+  | pos, i :: t =>
+    if i.offset + startDir < offsetCd then none          -- seek to a negative position
+    else
+      let loc := file.drop (i.offset + startDir - offsetCd)
+      let h := loc.take 30
+      let nlen := leNat ((h.drop 26).take 2)
+      let elen := leNat ((h.drop 28).take 2)
+      let name := (loc.drop 30).take nlen
+      let extra := (loc.drop (30 + nlen)).take elen
+      if i.offset + startDir - offsetCd ≠ pos ∨ h.length ≠ 30 ∨ h.take 4 ≠ sigLocal ∨ extra.length ≠ elen ∨
+          localSize h extra ≠ i.csize ∨ name ≠ i.name then none
+      else tilesFromStrict file startDir offsetCd (pos + 30 + nlen + elen + i.csize) t
+
+/-- `_open_archive(file_like)` (round 8) with `file_like.tell() = start`, then every member -/
+def openTiledStrict (crc32 : Bytes → Nat) (inflate : Bytes → Option Bytes) (start : Nat) (file : Bytes) : Option (List (Bytes × Bytes)) :=
+  match endRecData file with
+  | none => none
+  | some r =>
+    match r.startDir with
+    | none => none
+    | some sd =>
+      match parseCD (r.sizeCd + 1) r.sizeCd ((file.drop sd).take r.sizeCd) with
+      | none => none
+      | some infos =>
+        if tilesFromStrict file sd r.offsetCd start (sortByOffset infos) = some sd then readMembers crc32 inflate file sd r.offsetCd infos
+        else none
+
+/-! ## round 8: the CQM loader with the opener at the position where the header reader stopped -/
+
+/-- `read_header`, the version test, then `_open_archive(file_like)` with `file_like.tell()` = what the header reader consumed
+    (`BadZipFile` of `zipfile` and the `ValueError` of the walk are one error class here) -/
+def containerLoadAt (pre : Bytes) (parse : Bytes → Option H) (verOk : List Nat → Bool) (openAt : Nat → Bytes → Option β)
+    (bytes : Bytes) : Res (H × β) :=
+  match (readHeader pre parse).run bytes with
+  | .err e => .err e
+  | .ub => .ub
+  | .ok ((ver, h), rest) =>
+    if !verOk ver then .err .value
+    else match openAt (bytes.length - rest.length) bytes with
+      | none => .err .zip
+      | some a => .ok (h, a)
+
+/-- member names as the `Archive` of the CQM model has them -/
+def openTiledChars (crc32 : Bytes → Nat) (inflate : Bytes → Option Bytes) (start : Nat) (file : Bytes) : Option Archive :=
+  (openTiledStrict crc32 inflate start file).map fun ms => ms.map fun m => (asciiChars m.1, m.2)
+
+/-- **`ConstrainedQuadraticModel.from_file` (2.0 files) after the round-8 repair** -/
+def cqmFileLoadTiled (guard : Bool) (dsz : Nat) (parseHdr : Bytes → Option CqmCounts) (crc32 : Bytes → Nat) (inflate : Bytes → Option Bytes)
+    (parse : Bytes → Option (QHeader J)) (okLabel : List Char → Bool) (bytes : Bytes) : Res CqmContent :=
+  (containerLoadAt cqmPrefix parseHdr cqmVerOk (openTiledChars crc32 inflate) bytes).bind fun ha =>
+    cqmDecodeChecked guard dsz ha.1 parse okLabel ha.2
+
+/-! ## round 8: the DQM loader with the section-length check INSIDE the program (`_from_file_numpy` after the round-7 repair) -/
+
+/-- `BIAS` magic, length, `blob = file_like.read(length)`, `if len(blob) != length: raise ValueError`, then `np.load` on the blob -/
+def dqmBodyLenChecked (parseVars : Bytes → Option (List J)) (npLoad : Bytes → Option D) (nvarsOf : D → Nat) (labelled : Bool) (h : H) :
+    Prog (H × D × Option (List J)) :=
+  (Prog.expect magBIAS).bind fun _ =>
+  (Prog.readLen 4).bind fun n =>
+  (Prog.readN n).bind fun blob =>
+  if blob.length ≠ n then .fail .value else dqmFinish parseVars npLoad nvarsOf labelled h blob
+
+def dqmDecodeLenChecked (parse : Bytes → Option (Bool × H)) (parseVars : Bytes → Option (List J))
+    (npLoad : Bytes → Option D) (nvarsOf : D → Nat) : Prog (H × D × Option (List J)) :=
+  (readHeader dqmPrefix parse).bind fun vh =>
+  if !tupleLt vh.1 [2, 0] then .fail .value else
+  dqmBodyLenChecked parseVars npLoad nvarsOf vh.2.1 vh.2.2
+
 end FileFmt
